@@ -29,6 +29,10 @@ pub struct RunCfg {
     /// stall the walker at its k-th directory read / readlink for this many milliseconds
     #[serde(default)]
     pub stall: Option<(u8, u16)>,
+    /// copy_file_range is unavailable for the whole run (1 EXDEV, 2 ENOSYS, 3 EPERM; 0 = available): the
+    /// documented user-space fallback copies every block; the outcome must not change
+    #[serde(default)]
+    pub cfr: u8,
 }
 
 #[derive(Clone, Debug, Serialize, Deserialize)]
@@ -54,9 +58,22 @@ pub fn sched_of(r: &RunCfg) -> Sched {
 
 /// a long pause of the walker in the middle of the walk (timeouts, "queue went quiet" assumptions)
 pub fn stall_rules(r: &RunCfg) -> Vec<Rule> {
-    match r.stall {
+    let mut v = match r.stall {
         Some((k, ms)) => vec![Rule { sys: vec![Sys::Getdents, Sys::Readlink], path: PathSel::Sandbox, nth: Nth::Kth(k as usize), action: Action::Delay(ms as u64) }],
         None => vec![],
+    };
+    if let Some(e) = cfr_errno(r) {
+        v.push(Rule { sys: vec![Sys::CopyFileRange], path: PathSel::Sandbox, nth: Nth::All, action: Action::Errno(e) });
+    }
+    v
+}
+
+pub fn cfr_errno(r: &RunCfg) -> Option<i32> {
+    match r.cfr {
+        1 => Some(libc::EXDEV),
+        2 => Some(libc::ENOSYS),
+        3 => Some(libc::EPERM),
+        _ => None,
     }
 }
 
@@ -86,19 +103,34 @@ pub fn base_strategy() -> BoxedStrategy<c02::Case> {
 }
 
 pub fn run_cfg() -> BoxedStrategy<RunCfg> {
-    (any::<bool>(), 0..WORKERS.len(), 0u8..8, any::<u64>(), prop::collection::vec(1u16..300, 0..4), prop::option::weighted(0.04, (0u8..12, prop_oneof![Just(300u16), Just(1200u16), Just(2500u16)])))
-        .prop_map(|(parblock, w, kind, seed, change_points, stall)| RunCfg { parblock, workers: WORKERS[w], kind, seed, change_points, stall })
+    (any::<bool>(), 0..WORKERS.len(), 0u8..8, any::<u64>(), prop::collection::vec(1u16..300, 0..4), prop::option::weighted(0.04, (0u8..12, prop_oneof![Just(300u16), Just(1200u16), Just(2500u16)])), prop_oneof![6 => Just(0u8), 1 => 1u8..4])
+        .prop_map(|(parblock, w, kind, seed, mut change_points, stall, cfr)| {
+            if cfr != 0 {
+                // the fallback issues several calls per block: more priority changes so that some land inside a block copy
+                for i in 0..5u64 {
+                    change_points.push(1 + (crate::util::splitmix(seed ^ i) % 500) as u16);
+                }
+            }
+            RunCfg { parblock, workers: WORKERS[w], kind, seed, change_points, stall, cfr }
+        })
         .boxed()
 }
 
 pub fn strategy(nruns: usize) -> BoxedStrategy<Case> {
     (base_strategy(), prop_oneof![4 => Just(0u8), 1 => Just(1u8), 1 => Just(2u8), 1 => Just(4u8), 1 => Just(6u8)], prop::collection::vec(run_cfg(), nruns..=nruns))
         .prop_map(|(base, opts, mut runs)| {
-            // make sure both drivers occur
+            // make sure both drivers occur; the environment (is copy_file_range usable?) is the same for every run of a case
+            let cfr = runs[0].cfr;
             for (i, r) in runs.iter_mut().enumerate() {
                 if i < 2 {
                     r.parblock = i == 1;
                 }
+                if r.cfr == 0 && cfr != 0 {
+                    for k in 0..5u64 {
+                        r.change_points.push(1 + (crate::util::splitmix(r.seed ^ k) % 500) as u16);
+                    }
+                }
+                r.cfr = cfr;
             }
             Case { base, opts, runs }
         })
@@ -205,7 +237,10 @@ pub fn one_run(c: &Case, r: &RunCfg, rec: &mut Rec) -> Result<Option<OneRun>, St
     let out = Sup::run(sup_spec(&sb, b.inv.argv(), stall_rules(r), sched_of(r)));
     rec.eval(1);
     if r.stall.is_some() {
-        rec.class(format!("stall|{}ms|fired={}", r.stall.unwrap().1, out.fired.iter().sum::<usize>() > 0));
+        rec.class(format!("stall|{}ms|fired={}", r.stall.unwrap().1, out.fired.first().copied().unwrap_or(0) > 0));
+    }
+    if let Some(e) = cfr_errno(r) {
+        rec.class(format!("copy_file_range-unavailable|errno{}|{}|fired={}", e, if r.parblock { "parblock" } else { "parfile" }, out.fired.last().copied().unwrap_or(0) > 0));
     }
     if let Some(e) = out.setup_error {
         return Err(format!("supervisor: {e}"));
@@ -386,6 +421,6 @@ impl Check for C06 {
         }
     }
     fn required_classes(&self, _tier: Tier) -> Vec<String> {
-        ["run|parblock|w64", "run|parfile|w1|", "WalkerFirst", "WorkersFirst", "StarveWorker", "multiblock=true", "orders=4", "stall|1200ms|fired=true", "stall|2500ms|fired=true", "same-basename-sources"].iter().map(|s| s.to_string()).collect()
+        ["run|parblock|w64", "run|parfile|w1|", "WalkerFirst", "WorkersFirst", "StarveWorker", "multiblock=true", "orders=4", "stall|1200ms|fired=true", "stall|2500ms|fired=true", "same-basename-sources", "copy_file_range-unavailable|errno18|parblock|fired=true"].iter().map(|s| s.to_string()).collect()
     }
 }
